@@ -398,7 +398,6 @@ pub fn render(spec: &Spec, var: &Variant) -> String {
             g.push_str("use crate::rt::Loc;\n");
         }
     }
-    g.push_str("use lalrpop_util::ParseError;\n");
     g.push_str("use lalrpop_util::ErrorRecovery;\n\n");
     if var.ascent {
         g.push_str("#[recursive_ascent]\n");
@@ -449,7 +448,8 @@ pub fn render(spec: &Spec, var: &Variant) -> String {
             }
             let kids = names.join(", ");
             if p.fallible {
-                line.push_str(&format!(" =>? ctx.try_act({}, vec![{kids}]).map_err(|error| ParseError::User {{ error }}),\n", p.id));
+                // the error an action returns may be ANY ParseError variant, not only `User`
+                line.push_str(&format!(" =>? ctx.try_act({}, vec![{kids}]).map_err(|error| ctx.wrap(error)),\n", p.id));
             } else {
                 line.push_str(&format!(" => ctx.act({}, vec![{kids}]),\n", p.id));
             }
